@@ -195,12 +195,34 @@ pub fn run(prop: &str, tier: &str, replay: Option<&str>) -> i32 {
                 let ca = to_params(&ca_st).unwrap().self_signed(&ca_kp)?;
                 let leaf = to_params(&leaf_state(&kids[c.2])).unwrap().signed_by(&leaf_kp, &ca, &ca_kp)?;
                 let leaf2 = issue_via_csr(&leaf_kp, &ca, &ca_kp)?;
-                Ok::<_, rcgen::Error>((ca.der().to_vec(), leaf.der().to_vec(), leaf2))
+                // the same name in two roles: a certificate for ANOTHER key whose subject equals the issuer's name
+                // (the "new with old" certificate of a key roll-over)
+                let mut same = leaf_state(&kids[c.2]);
+                same.dn = ca_st.dn.clone();
+                // a CA certificate (it carries its own subject key identifier: without one OpenSSL cannot tell a
+                // self-issued certificate from a self-signed one and refuses it at depth 0)
+                same.is_ca = IsCaSpec::Unconstrained;
+                same.key_usages = vec![5, 6];
+                same.sans = vec![];
+                same.ekus = vec![];
+                // (equal pre-specified identifiers on both sides would make it look self-signed by construction)
+                let same_pre = matches!((&kids[c.1], &kids[c.2]), (KeyIdSpec::Pre(a), KeyIdSpec::Pre(b)) if a == b);
+                let leaf3 = if ca_st.dn.0.is_empty() || same_pre { None } else { Some(to_params(&same).unwrap().signed_by(&leaf_kp, &ca, &ca_kp)?.der().to_vec()) };
+                Ok::<_, rcgen::Error>((ca.der().to_vec(), leaf.der().to_vec(), leaf2, leaf3))
             });
             out.transitions = 46;
             match r {
-                Ok(Ok((ca_der, leaf_der, leaf2_der))) => {
+                Ok(Ok((ca_der, leaf_der, leaf2_der, leaf3_der))) => {
                     out.digest = fnv(&decode_cert(&leaf_der).value.map(|v| v.tbs_raw).unwrap_or_default());
+                    if let Some(l3) = &leaf3_der {
+                        let mut f3 = Vec::new();
+                        // webpki judges end entities only and this is a CA certificate: OpenSSL and the byte-level checks
+                        judge_chain(l3, &ca_der, true, true, false, &mut f3);
+                        out.findings.extend(f3.into_iter().map(|mut f| {
+                            f.locus = format!("{} (subject named like its issuer, other key)", f.locus);
+                            f
+                        }));
+                    }
                     judge_chain(&leaf_der, &ca_der, true, true, true, &mut out.findings);
                     let mut f2 = Vec::new();
                     judge_chain(&leaf2_der, &ca_der, true, true, true, &mut f2);
